@@ -20,6 +20,7 @@ std::string harness_run()
   rc.solver = int(sim::cfg_weighted("solver", {4, 2, 2, 1}));
   rc.cycle = int(sim::cfg_weighted("cycle", {3, 1, 2}));
   rc.wait_order = int(sim::cfg_int("wait_order", 0, 1));
+  rc.splitter = int(sim::cfg_int("splitter", 0, 1));
   static const uint64_t costs[4] = {200000, 500000, 1000000, 3000000};
   sim::clock_set_read_cost(rc.w.parti == 2 ? costs[sim::cfg_int("clock_cost", 0, 3)] : 0);
   CNT = Counters();
